@@ -326,6 +326,13 @@ func runCaseRaw(c Case, dir string, res *lib.Result) string {
 			r := doOp(ctx, rc, base, op)
 			res.Count("ocidir:" + op.K + ":" + r.kind)
 			obs = append(obs, r.coq())
+			// any layout, also a foreign one with full image names or duplicates: a tag that was just pushed resolves to
+			// the manifest that was pushed (C06_push_then_get)
+			if op.K == "puttag" && r.kind == "ok" {
+				if h := doOp(ctx, rc, base, Op{K: "head", T: op.T}); h.kind != "dig" || h.dig != op.D {
+					res.Fail("pushed-tag-resolves-elsewhere", fmt.Sprintf("op %d %+v succeeded, but a head of tag %s answers %s", i, op, op.T, h.coq()), c)
+				}
+			}
 			if wf {
 				want := sp.apply(op)
 				if !sameRes(r, want) {
